@@ -270,6 +270,7 @@ func (srv *Server) tsigProvider() TsigProvider {
 func (srv *Server) isStarted() bool {
 	srv.lock.RLock()
 	started := srv.started
+	vhook("is.started", srv, vbool(started), 0)
 	srv.lock.RUnlock()
 	return started
 }
@@ -425,6 +426,7 @@ func (srv *Server) ShutdownContext(ctx context.Context) error {
 	}
 
 	srv.started = false
+	vhook("shutdown.begin", srv, 0, 0)
 
 	if srv.PacketConn != nil {
 		srv.PacketConn.SetReadDeadline(aLongTimeAgo) // Unblock reads
@@ -437,7 +439,7 @@ func (srv *Server) ShutdownContext(ctx context.Context) error {
 	for rw := range srv.conns {
 		rw.SetReadDeadline(aLongTimeAgo) // Unblock reads
 	}
-	vhook("shutdown.begin", srv, uintptr(len(srv.conns)), 0)
+	vhook("shutdown.unlock", srv, uintptr(len(srv.conns)), 0)
 
 	srv.lock.Unlock()
 
